@@ -55,6 +55,7 @@ contract(
     target=f"{SB}::make_seeded_intervals",
     params={"n": "int", "min_length": "int", "max_length": "int", "growth_factor": "real"},
     requires=["min_length >= 2", "n >= min_length", "max_length >= min_length", "growth_factor > 1", "growth_factor <= 2"],
+    uses=["AX_LOG_pos(growth_factor)"],
     returns="(int[L],int[L])",
     ensures=SEEDED_POST,
     invariants={"loop#1": {
@@ -111,4 +112,135 @@ contract(
     call_ghosts={"cpts = greedy_changepoint_selection(amoc_scores, maximizers, starts, ends, threshold)":
                  {"greedy_changepoint_selection": {"m": M, "n": "n"}}},
     props=["C07", "C04", "C10"],
+)
+
+# ------------------------------------------------------------------------------------------------ circular binary segmentation
+contract(
+    target=f"{CB}::greedy_anomaly_selection",
+    params={"scores": "real[K]", "anomaly_starts": "int[K]", "anomaly_ends": "int[K]", "starts": "int[K]", "ends": "int[K]", "threshold": "real"},
+    ghost_params={"m": "int", "n": "int"},
+    requires=["threshold >= 0", "m >= 1",
+              "forall(range(K), lambda i: implies(scores[i] > threshold, 0 <= starts[i] and starts[i] < anomaly_starts[i] and "
+              "anomaly_starts[i] + m <= anomaly_ends[i] and anomaly_ends[i] < ends[i] and ends[i] <= n))"],
+    returns="list[(int,int)]",
+    ensures={
+        # C04: sorted, pairwise disjoint, strictly inside the data, length >= m
+        "wellformed": "forall(range(len(result)), lambda q: 1 <= result[q][0] and result[q][0] + m <= result[q][1] and result[q][1] <= n - 1) and "
+                      "forall(range(len(result) - 1), lambda q: result[q][1] <= result[q + 1][0])",
+        "supported": "forall(range(len(result)), lambda q: exists(range(K), lambda i: result[q][0] == anomaly_starts[i] and "
+                     "result[q][1] == anomaly_ends[i] and scores[i] > threshold))",
+        "exhaustive": "forall(range(K), lambda i: implies(scores[i] > threshold, exists(range(len(result)), lambda q: result[q][1] > starts[i] and result[q][0] < ends[i])))",
+    },
+    invariants={"loop#1": {
+        "len": "len(scores) == K",
+        "I1_zeroed_or_kept": "forall(range(K), lambda i: scores[i] == old(scores)[i] or (scores[i] == 0 and 0 <= g_hit[i] and g_hit[i] < len(anomalies) and "
+                             "anomalies[g_hit[i]][1] > starts[i] and anomalies[g_hit[i]][0] < ends[i]))",
+        "I3_overlapping_are_zero": "forall(range(K), range(len(anomalies)), lambda i, q: implies(anomalies[q][1] > starts[i] and anomalies[q][0] < ends[i], scores[i] == 0))",
+        "I4_supported": "forall(range(len(anomalies)), lambda q: 0 <= g_src[q] and g_src[q] < K and anomalies[q][0] == anomaly_starts[g_src[q]] and "
+                        "anomalies[q][1] == anomaly_ends[g_src[q]] and old(scores)[g_src[q]] > threshold)",
+        "I5_disjoint": "forall(range(len(anomalies)), range(len(anomalies)), lambda q, r: implies(q != r, anomalies[q][1] <= anomalies[r][0] or anomalies[r][1] <= anomalies[q][0]))",
+    }},
+    loop_vars={"loop#1": {"anomalies": "list[(int,int)]", "g_hit": "int[K]", "g_src": "int[K]"}},
+    ghost=[
+        ("before:while *", "g_hit = lam('int', K, lambda i: 0)\ng_src = lam('int', K, lambda q: 0)"),
+        ("before:scores[*", "g_sc0 = scores"),
+        ("after:scores[*",
+         "g_hit = lam('int', K, lambda i: ite(anomaly_end > starts[i] and anomaly_start < ends[i] and g_sc0[i] != 0, len(anomalies) - 1, g_hit[i]))\n"
+         "g_src = lam('int', K, lambda q: ite(q == len(anomalies) - 1, argmax, g_src[q]))"),
+        ("after:anomalies.sort()",
+         "assert forall(range(K), lambda i: implies(scores[i] != old(scores)[i], 0 <= sort_inv(anomalies, g_hit[i]) and sort_inv(anomalies, g_hit[i]) < len(anomalies)"
+         " and anomalies[sort_inv(anomalies, g_hit[i])][1] > starts[i] and anomalies[sort_inv(anomalies, g_hit[i])][0] < ends[i]))"),
+    ],
+    props=["C09", "C04"],
+)
+
+ADM = lambda a, b, s, e, m: f"({s} < {a} and {b} < {e} and {b} - {a} >= {m} and ({e} - {b}) + ({a} - {s}) >= {m})"
+_S, _E, _MM = "interval_start", "interval_end", "min_segment_length"
+_SOUND = f"forall(range(len(starts)), lambda q: {ADM('starts[q]', 'ends[q]', _S, _E, _MM)})"
+contract(
+    target=f"{CB}::make_anomaly_intervals",
+    params={"interval_start": "int", "interval_end": "int", "min_segment_length": "int"},
+    requires=["min_segment_length >= 1", "interval_start >= 0", "interval_start <= interval_end"],
+    returns="(int[L],int[L])",
+    ensures={
+        "lengths_agree": "len(result[0]) == len(result[1])",
+        # exactly the admissible inner intervals: both inclusions
+        "sound": f"forall(range(len(result[0])), lambda q: {ADM('result[0][q]', 'result[1][q]', _S, _E, _MM)})",
+        "complete": f"forall(range({_S}, {_E} + 1), range({_S}, {_E} + 1), lambda a, b: implies({ADM('a', 'b', _S, _E, _MM)}, "
+                    "exists(range(len(result[0])), lambda q: result[0][q] == a and result[1][q] == b)))",
+    },
+    invariants={
+        "loop#1": {
+            "lens": "len(starts) == len(ends)",
+            "sound": _SOUND,
+            "complete": f"forall(range({_S}, i), range({_S}, {_E} + 1), lambda a, b: implies({ADM('a', 'b', _S, _E, _MM)}, "
+                        "0 <= g_idx[a, b] and g_idx[a, b] < len(starts) and starts[g_idx[a, b]] == a and ends[g_idx[a, b]] == b))",
+        },
+        "loop#2": {
+            "lens": "len(starts) == len(ends)",
+            "sound": _SOUND,
+            "complete": f"forall(range({_S}, i + 1), range({_S}, {_E} + 1), lambda a, b: implies({ADM('a', 'b', _S, _E, _MM)} and (a < i or b < j), "
+                        "0 <= g_idx[a, b] and g_idx[a, b] < len(starts) and starts[g_idx[a, b]] == a and ends[g_idx[a, b]] == b))",
+        },
+    },
+    loop_vars={"loop#1": {"starts": "list[int]", "ends": "list[int]", "g_idx": "int[interval_end+1,interval_end+1]"},
+               "loop#2": {"starts": "list[int]", "ends": "list[int]", "g_idx": "int[interval_end+1,interval_end+1]"}},
+    ghost=[
+        ("before:for i in *", "g_idx = lam('int', interval_end + 1, interval_end + 1, lambda a, b: 0)"),
+        ("after:ends.append(j)", "g_idx = lam('int', interval_end + 1, interval_end + 1, lambda a, b: ite(a == i and b == j, len(starts) - 1, g_idx[a, b]))"),
+    ],
+    props=["C09", "C04", "C14"],
+)
+
+LS_FIELDS = {"score": "obj:~BaseLocalAnomalyScore", "score.min_size": "int"}
+LS_FIT_MODS = {"score._X": "=X", "score._is_fitted": "=True", "score.ghost_tok": "int", "score.ghost_n": "=n", "score.ghost_p": "=p", "score.ghost_q": "int"}
+LTOK = "score.ghost_tok"
+
+
+def _cb_facts(sc, a_s, a_e, st, en, i):
+    adm_ab = ADM("a", "b", f"{st}[{i}]", f"{en}[{i}]", M)
+    adm_mx = ADM(f"{a_s}", f"{a_e}", f"{st}[{i}]", f"{en}[{i}]", M)
+    return (f"forall(range({st}[{i}], {en}[{i}] + 1), range({st}[{i}], {en}[{i}] + 1), lambda a, b: implies({adm_ab}, AGG4({LTOK}, {st}[{i}], a, b, {en}[{i}]) <= {sc}[{i}]))",
+            adm_mx, f"{sc}[{i}] == AGG4({LTOK}, {st}[{i}], {a_s}, {a_e}, {en}[{i}])")
+
+
+_mx, _ad, _at = _cb_facts("anomaly_scores", "anomaly_starts[i]", "anomaly_ends[i]", "starts", "ends", "i")
+contract(
+    target=f"{CB}::run_circular_binseg",
+    params={"X": "real[n,p]", **LS_FIELDS, "threshold": "real", "min_segment_length": "int", "max_interval_length": "int", "growth_factor": "real"},
+    requires=[f"{M} >= 1", "score.min_size >= 1", f"score.min_size <= {M}", f"n >= 2 * {M}", f"max_interval_length >= 2 * {M}",
+              "growth_factor > 1", "growth_factor <= 2", "threshold >= 0"],
+    modifies=LS_FIT_MODS,
+    returns="(list[(int,int)],real[L],real[L,2],int[L],int[L])",
+    ensures={
+        "intervals": "len(result[1]) == len(result[3]) and len(result[4]) == len(result[3]) and len(result[3]) >= 1 and "
+                     f"forall(range(len(result[3])), lambda q: 0 <= result[3][q] and result[4][q] <= n and 2 * {M} <= result[4][q] - result[3][q])",
+        # per-candidate score is the maximum of the column-summed local anomaly score over admissible inner intervals (0 if there is none)
+        "max": "forall(range(len(result[3])), lambda i: forall(range(result[3][i], result[4][i] + 1), range(result[3][i], result[4][i] + 1), lambda a, b: "
+               f"implies({ADM('a', 'b', 'result[3][i]', 'result[4][i]', M)}, AGG4({LTOK}, result[3][i], a, b, result[4][i]) <= result[1][i])))",
+        # ... attained at the inner interval reported in the scores table (the table columns are the argmax)
+        "table_is_argmax": "forall(range(len(result[3])), lambda i: implies(result[1][i] > 0, exists(range(0, n + 1), range(0, n + 1), lambda a, b: "
+                           f"{ADM('a', 'b', 'result[3][i]', 'result[4][i]', M)} and result[2][i, 0] == a and result[2][i, 1] == b and "
+                           f"result[1][i] == AGG4({LTOK}, result[3][i], a, b, result[4][i]))))",
+        "anomalies_wellformed": f"forall(range(len(result[0])), lambda q: 1 <= result[0][q][0] and result[0][q][0] + {M} <= result[0][q][1] and result[0][q][1] <= n - 1) and "
+                                "forall(range(len(result[0]) - 1), lambda q: result[0][q][1] <= result[0][q + 1][0])",
+    },
+    invariants={"loop#1": {
+        "shapes": "len(anomaly_scores) == len(starts) and len(anomaly_starts) == len(starts) and len(anomaly_ends) == len(starts) and "
+                  "maximizers.shape == (len(starts), 2) and score._is_fitted == True and score.ghost_n == n",
+        "max": f"forall(range(_k), lambda i: {_mx})",
+        "argmax": f"forall(range(_k), lambda i: (anomaly_scores[i] == 0 and not g_has[i]) or (g_has[i] and {_ad} and {_at} and "
+                  "maximizers[i, 0] == anomaly_starts[i] and maximizers[i, 1] == anomaly_ends[i]))",
+        "rest": "forall(range(_k, len(starts)), lambda i: anomaly_scores[i] == 0 and not g_has[i])",
+    }},
+    loop_vars={"loop#1": {"g_has": "bool[L]"}},
+    ghost=[
+        ("before:for i, (start, end) in *", "g_has = lam('bool', len(starts), lambda q: False)"),
+        ("after:maximizers[i, 1] = *", "g_has = lam('bool', len(starts), lambda q: q == i or g_has[q])"),
+        ("after:agg_scores = *",
+         "assert forall(range(len(anomaly_start_candidates)), lambda q: agg_scores[q] == AGG4(score.ghost_tok, start, anomaly_start_candidates[q], anomaly_end_candidates[q], end))"),
+    ],
+    call_ghosts={"anomalies = greedy_anomaly_selection(anomaly_scores, anomaly_starts, anomaly_ends, starts, ends, threshold)":
+                 {"greedy_anomaly_selection": {"m": M, "n": "n"}}},
+    props=["C09", "C04", "C10"],
 )
